@@ -11,6 +11,7 @@
 //   E <q> <hex>        escape(value, q)   -> hex        (q = 22 or 27)
 //   U <q> <hex>        unescape(text, q)  -> hex
 //   G <hex>            getEncodingType / getStringEncoding / getCharacterEncoding -> "<s> <c>"
+//   H <hex>            tokenizer_t::getHeader() at the start of the source -> "h=<hex|NULL> p=<offset> e=<errors>"
 //
 // canonical token:  I:<hex> | P:<hex> | O:<id> | N | S:<enc>:<hex>:<hex> | C:<enc>:<hex>:<hex> | M:<hex> | U:<hex>
 #include <occa/internal/lang/tokenizer.hpp>
@@ -19,6 +20,7 @@
 #include <occa/internal/utils/string.hpp>
 #include <occa/internal/io/output.hpp>
 #include <csignal>
+#include <stdexcept>
 #include <unistd.h>
 #include "hproto.hpp"
 
@@ -241,6 +243,32 @@ int main() {
           return hx(e);
         }
         return hx(unescape(bytes, q[0]));
+      }
+      if (t[0] == "H" && t.size() == 2 && hp::unhex(t[1], bytes)) {
+        // tokenizer_t::getHeader() on an exact-size buffer (the #include path of the preprocessor)
+        static tokenizer_t *th = new tokenizer_t();
+        char *buf = (char*) malloc(bytes.size() + 1);
+        memcpy(buf, bytes.data(), bytes.size());
+        buf[bytes.size()] = '\0';
+        const size_t n = strlen(buf);
+        th->set((const char*) buf);
+        std::string out;
+        alarm(20);
+        try {
+          std::string h = th->getHeader();
+          out = "h=" + hx(h);
+        } catch (const std::logic_error &) {   // `return NULL;` from a function returning std::string
+          out = "h=NULL";
+        }
+        alarm(0);
+        const char *fin = th->fp.start;
+        if (fin < buf || fin > buf + n)
+          hp::oracle("getHeader leaves the position outside the input buffer [0," + std::to_string(n) + "]: " +
+                     std::to_string((long) (fin - buf)));
+        out += " p=" + std::to_string((long) (fin - buf)) + " e=" + std::to_string(th->errors);
+        th->clear();
+        free(buf);
+        return out;
       }
       if (t[0] == "G" && t.size() == 2 && hp::unhex(t[1], bytes)) {
         return std::to_string(getStringEncoding(bytes)) + " " + std::to_string(getCharacterEncoding(bytes));
